@@ -7,6 +7,10 @@ WT == IF Thorough THEN VT ELSE PrimTypes \cup VT1 \cup TakeN(VT2, 7)
 Base == UNION {TakeN(AllVals(t), IF Thorough THEN 30 ELSE 14) : t \in WT}
 Variants(v) == {v} \cup TakeN(Weak1(v, TRUE), 3) \cup TakeN(MarkPlacements(v), 4)
                \cup UNION {TakeN(MarkPlacements(w), 2) : w \in TakeN(Weak1(v, TRUE), 2)}
+               \* two and three marked paths in one value (top + nested, nested + nested)
+               \cup TakeN({WithMk(w, <<"m1">>) : w \in MarkNested(v, <<"m2">>)}, 2)
+               \cup TakeN(UNION {MarkNested(w, <<"m1">>) : w \in TakeN(MarkNested(v, <<"m2">>), 3)}, 3)
+               \cup TakeN(UNION {{WithMk(x, <<"m1", "m2">>) : x \in MarkNested(w, <<"m1">>)} : w \in TakeN(MarkNested(v, <<"m2">>), 2)}, 2)
 StepMenu == {AttrStep("a"), AttrStep("b"), AttrStep("c"), IdxStep(NumV(0)), IdxStep(NumV(4)), IdxStep(NumV(8)), IdxStep(NumV(-4)),
              IdxStep(NumV(2)), IdxStep(StrV(<<"a">>)), IdxStep(StrV(<<"b">>)), IdxStep(StrV(<<"c">>)), IdxStep(Null(TNum)), IdxStep(BoolV(TRUE))}
 Paths2 == SeqsUpTo(StepMenu, 2)
